@@ -35,6 +35,7 @@ pub fn generate(verif_seed: u64, idx: u64, property: &str, thorough: bool) -> Sc
     cfg.max_depth = cfg.max_depth.min(4);
     scn.text_build = rng.chance(1, 16);
     let nrules = 1 + rng.usize(4);
+    let names = crate::c05::rule_names(&mut rng, nrules);
     let mut grng = rng.fork();
     let mut g = Gen::new(&mut grng, cfg, refs, syms.clone());
     for i in 0..nrules {
@@ -43,7 +44,7 @@ pub fn generate(verif_seed: u64, idx: u64, property: &str, thorough: bool) -> Sc
         let ty = *g.rng.pick(&ALL_TYS);
         let d = g.cfg.max_depth;
         let expr = g.gen(ty, d);
-        scn.rules.push(RuleSpec { name: format!("r{i}"), expr });
+        scn.rules.push(RuleSpec { name: names[i].clone(), expr });
     }
     // the symbol table read back through a rule: compared with the reference like everything else
     scn.rules.push(RuleSpec { name: "symtab".into(), expr: X::Vec(syms.iter().map(|(n, _)| X::Sym(n.clone())).collect()) });
